@@ -4,6 +4,9 @@ externals (np.random.normal, genextreme.rvs, kin_scaling, the per-type data like
 encoding of a configuration for the Lean driver op `Lens.single`."""
 import contextlib
 import math
+import warnings
+
+warnings.simplefilter("ignore")
 
 import numpy as np
 
